@@ -680,7 +680,9 @@ def sq_nontrivial(c):
 def sq_labels(c):
     out = [f"n{c['n']}", c["mc"]["kind"], "batch>=64" if C.prod(c["batch"]) >= 64 else "batch<64"]
     if c.get("layout", "C") != "C":
-        out.append("layout:" + c["layout"] + (":batch>=64" if C.prod(c["batch"]) >= 64 else "") + (":n5" if c["n"] == 5 else ""))
+        out.append("layout:" + c["layout"])
+        if C.prod(c["batch"]) >= 64 or c["n"] == 5:
+            out.append("layout:" + c["layout"] + (":batch>=64" if C.prod(c["batch"]) >= 64 else "") + (":n5" if c["n"] == 5 else ""))
     if c["rank"] is not None:
         out.append("singular")
     if any(p.get("pat") == "unit-columns" for p in c["mc"]["pool"]):
@@ -694,9 +696,9 @@ LAWS = [
     Law("det", sq_strategy(True), run_det, sq_nontrivial, sq_labels, {"quick": 600, "thorough": 8000},
         "det vs exact determinant, both sides of the 64-matrix switch", mandatory=("batch>=64", "batch<64", "singular", "complex", "structured-zeros:batch>=64")),
     Law("adjugate", sq_strategy(True), run_adj, sq_nontrivial, sq_labels, {"quick": 250, "thorough": 4000},
-        "adjugate vs exact cofactor matrix; A adj(A) = adj(A) A = det(A) I", mandatory=("batch>=64", "batch<64", "singular")),
+        "adjugate vs exact cofactor matrix; A adj(A) = adj(A) A = det(A) I; arguments in C / Fortran order, as transposed and strided views", mandatory=("batch>=64", "batch<64", "singular", "layout:F", "layout:Tview")),
     Law("inv", sq_strategy(False), run_inv, lambda c: C.prod(c["batch"]) >= 63, sq_labels, {"quick": 400, "thorough": 5000},
-        "inv vs exact inverse of invertible matrices", mandatory=("batch>=64", "batch<64", "structured-zeros:batch>=64", "unit-columns:all-positions")),
+        "inv vs exact inverse of invertible matrices; arguments in C / Fortran order, as transposed and strided views", mandatory=("batch>=64", "batch<64", "structured-zeros:batch>=64", "unit-columns:all-positions", "layout:F", "layout:Tview")),
     Law("null_space_orth", lowrank_strategy, run_nullspace, lambda c: True,
         lambda c: [f"{c['n']}x{c['m']}", "dim-given" if c["given_dim"] else "dim-auto", "batched" if c["batch"] else "single"],
         {"quick": 300, "thorough": 5000}, "null_space / orth of planted-rank integer products: shape, A N = 0, orthonormality, same range"),
